@@ -516,12 +516,17 @@ func Corpus() []File {
 	return files
 }
 
-func corpusUnit(f File, subst bool) Unit {
+const substChunk = 48
+
+func corpusUnit(f File, subst bool, from int) Unit {
 	kind := "prefix"
+	name := "corpus/prefix/" + f.Name
 	if subst {
 		kind = "subst"
+		name = fmt.Sprintf("corpus/subst/%s@%d", f.Name, from)
 	}
-	return Unit{Name: "corpus/" + kind + "/" + f.Name, Each: func(yield func([]byte) bool) {
+	_ = kind
+	return Unit{Name: name, Each: func(yield func([]byte) bool) {
 		if !subst {
 			for n := len(f.Data); n >= 0; n-- {
 				if !yield(f.Data[:n]) {
@@ -532,7 +537,7 @@ func corpusUnit(f File, subst bool) Unit {
 		}
 		buf := make([]byte, len(f.Data))
 		copy(buf, f.Data)
-		for i := range buf {
+		for i := from; i < len(buf) && i < from+substChunk; i++ {
 			orig := buf[i]
 			for x := 0; x < 256; x++ {
 				if byte(x) == orig {
@@ -574,12 +579,14 @@ func Units(tier string) []Unit {
 	us = append(us, MetaUnits(thorough)...)
 	files := Corpus()
 	for _, f := range files {
-		us = append(us, corpusUnit(f, false))
+		if thorough || strings.HasPrefix(f.Name, "testdata/") || len(f.Data) <= 64 {
+			for from := 0; from < len(f.Data); from += substChunk {
+				us = append(us, corpusUnit(f, true, from))
+			}
+		}
 	}
 	for _, f := range files {
-		if thorough || strings.HasPrefix(f.Name, "testdata/") || len(f.Data) <= 64 {
-			us = append(us, corpusUnit(f, true))
-		}
+		us = append(us, corpusUnit(f, false, 0))
 	}
 	return us
 }
